@@ -4,7 +4,11 @@
    handler body of the Go code at the granularity of one channel receive; `reach` = every interleaving of
    subscribe, leave, unsubscribe, delete, session disconnect, slow-consumer eviction, idle unload, with any
    number of sessions, topics and topic instances.  Queues are UNBOUNDED FIFOs (the real buffers have 1..256
-   slots): a deadlock that needs a full buffer is outside the model.  Account deletion, p2p, 'me', channels
+   slots): a deadlock that needs a full buffer is outside the model.  Group topics with or without channel
+   functionality, addressed by the group name (grpXXX) or by the channel name (chnXXX): the name form of a
+   request decides asChan (Topic.verifyChannelAccess), the form a session attached under is kept per session
+   (perSessionData.isChanSub), and handleLeaveRequest compares the two AFTER it has detached the session.
+   Account deletion, p2p, 'me', the per-user records (online counters, channel readers' rows), presence
    and the last clause of the property (shared data only under its lock / atomic) are NOT in this model:
    the burst driver exercises them on the real code (the last clause under the Go race detector, thorough
    tier: testing in support, no theorem).
@@ -31,7 +35,7 @@ Definition c14_inflight_balance_statement : Prop :=
 Theorem c14_inflight_balance_refuted : ~ c14_inflight_balance_statement.
 Proof.
   intros H. destruct stale_unload_unbalanced as (c & Hrun & Hi & Hp).
-  specialize (H ex_stored ex_owner ex_user c (run_reach _ _ _ _ _ _ (reach_init _ _ _) Hrun) 1). lia.
+  specialize (H ex_stored ex_owner ex_user c (run_reach _ _ _ _ _ _ (reach_init _ _ _ _) Hrun) 1). lia.
 Qed.
 Print Assumptions c14_inflight_balance_refuted.
 
@@ -52,11 +56,38 @@ Print Assumptions c14_inflight_never_low.
 (* `reachI c iss`: c is reachable and iss is the list of the {sub}/{leave}/{del} requests issued on the way.
    `acct q c` = replies carrying q's id in the outbox of q's session + copies of q still in a queue. *)
 
-(* FULL (every execution): never answered twice, never answered and still queued. *)
-Theorem c14_reply_at_most_once : forall st ow us c iss,
-  reachI st ow us c iss -> forall q, In q iss -> acct q c <= 1.
+(* the clause: never answered twice, never answered and still queued *)
+Definition c14_reply_at_most_once_statement : Prop :=
+  forall st ow us c iss, reachI st ow us c iss -> forall q, In q iss -> acct q c <= 1.
+
+(* REFUTED: a session attached to a group topic WITHOUT channel functionality sends {leave topic=chnXXX}:
+   verifyChannelAccess fails, handleLeaveRequest queues {ctrl 404} and does not return (topic.go:697-702); the
+   request is then processed as usual: a second answer (200, session detached).  Replayed on the real code:
+   corpus/C14/12, law leave-chn-name-on-plain-group-answered-twice. *)
+Theorem c14_reply_at_most_once_refuted : ~ c14_reply_at_most_once_statement.
+Proof.
+  intros H. destruct chn_leave_twice as (c & iss & q & Hrun & Hin & Ha & _).
+  specialize (H _ _ _ c iss (runI_reachI _ _ _ _ _ _ _ _ (ri_init _ _ _ _) Hrun) q Hin). lia.
+Qed.
+Print Assumptions c14_reply_at_most_once_refuted.
+
+(* PARTIAL: on every execution in which that one step (`noisy`: the topic takes a client's {leave} whose name is
+   a channel name although the topic has no channel functionality) does not occur. *)
+Theorem c14_reply_at_most_once_partial : forall st ow us c iss,
+  reachI_nd st ow us c iss -> forall q, In q iss -> acct q c <= 1.
 Proof. exact at_most_once. Qed.
-Print Assumptions c14_reply_at_most_once.
+Print Assumptions c14_reply_at_most_once_partial.
+
+(* FULL (every execution): one step raises the account of an issued request by at most one, and only that step,
+   only for the request it consumes. *)
+Theorem c14_reply_at_most_one_more : forall st ow us c iss l c' q,
+  reachI st ow us c iss -> In q iss -> step c l c' ->
+  acct q c' <= acct q c + extra c l q /\ extra c l q <= 1 /\ (noisy c l = false -> extra c l q = 0).
+Proof.
+  intros st ow us c iss l c' q H Hq Hs. destruct (at_most_one_more _ _ _ _ _ _ _ _ H Hq Hs) as [A B].
+  repeat split; auto. intros Hn. apply extra_quiet. exact Hn.
+Qed.
+Print Assumptions c14_reply_at_most_one_more.
 
 (* the clause: as long as its session is not closing, an issued request has exactly one answer or is still on its
    way; a {leave} may instead have been overtaken by the eviction notice of that topic *)
@@ -69,13 +100,14 @@ Definition c14_reply_exactly_one_statement : Prop :=
 Theorem c14_reply_exactly_one_refuted : ~ c14_reply_exactly_one_statement.
 Proof.
   intros H. destruct leave_after_unsub_lost as (c & iss & q & Hrun & Hin & _ & Ht & Ha & Hn & _).
-  destruct (H _ _ _ c iss q (runI_reachI _ _ _ _ _ _ _ _ (ri_init _ _ _) Hrun) Hin Ht) as [X|(_ & _ & X)]; [lia|congruence].
+  destruct (H _ _ _ c iss q (runI_reachI _ _ _ _ _ _ _ _ (ri_init _ _ _ _) Hrun) Hin Ht) as [X|(_ & _ & X)]; [lia|congruence].
 Qed.
 Print Assumptions c14_reply_exactly_one_refuted.
 
 (* PARTIAL: on every execution that avoids the three silent steps named in `lossy` (topicInit returning on
    isDeleted; the owner's {del} forwarded to a loading topic; a {leave}/{del} reaching a topic that no longer
-   lists the session WITHOUT an eviction notice having been sent) the clause holds. *)
+   lists the session WITHOUT an eviction notice having been sent) and the step named in `noisy` (above) the
+   clause holds. *)
 Theorem c14_reply_exactly_one_partial : forall st ow us c iss q,
   reachI_ok st ow us c iss -> In q iss -> s_term (c_sess c (r_sid q)) = false -> good q c.
 Proof. intros st ow us c iss q H. exact (good_reach_ok st ow us c iss H q). Qed.
@@ -90,7 +122,7 @@ Proof. intros st ow us c iss q H Hq. exact (answered_at_quiescence st ow us c is
 Print Assumptions c14_reply_at_quiescence_partial.
 
 (* the single-step form used above: one step never changes the account of an issued request except at a step
-   named in `lossy` or by dropping the reply to a closing session (Session.queueOut) *)
+   named in `lossy` or `noisy` or by dropping the reply to a closing session (Session.queueOut) *)
 Theorem c14_reply_conserved_stepwise : forall st ow us c iss l c' q,
   reachI st ow us c iss -> In q iss -> step c l c' -> conserves c l c' q.
 Proof.
@@ -130,6 +162,33 @@ Theorem c14_attached_listed : forall st ow us c, reach st ow us c ->
     lookup (i_name (c_inst c i)) (s_subs (c_sess c s)) = Some i.
 Proof. exact attached_listed. Qed.
 Print Assumptions c14_attached_listed.
+
+(* FULL, the handler itself: when handleLeaveRequest returns from a {leave} without unsub - or from a session
+   dropped by the server: disconnect (unsubAll), slow consumer - the topic does not list the session AND the
+   session does not list the topic.  This includes the path on which the name form of the request (grpXXX /
+   chnXXX) differs from the form the session attached under (answered 404: `remSession` and `delSub` come BEFORE
+   the check `pssd.isChanSub != asChan`, topic.go:721-731) and the path on which a topic without channel
+   functionality was addressed as a channel. *)
+Theorem c14_leave_detaches_both_sides : forall c i c' r rest,
+  step c (TopicUnreg i) c' -> take_first i (c_tunreg c) = Some (r, rest) ->
+  inactive (c_inst c i) = false -> (r_init r = false \/ r_kind r <> KLeave true) ->
+  mem (r_sid r) (i_sessions (c_inst c' i)) = false /\
+  (mem (r_sid r) (i_sessions (c_inst c i)) = true ->
+   lookup (i_name (c_inst c i)) (s_subs (c_sess c' (r_sid r))) = None /\ mem (r_sid r) (i_chansub (c_inst c' i)) = false).
+Proof. exact leave_detaches_both_sides. Qed.
+Print Assumptions c14_leave_detaches_both_sides.
+
+(* ... and the slow-consumer eviction (Topic.broadcastToSessions -> unregisterSession{init:false}) likewise *)
+Theorem c14_evict_detaches_both_sides : forall c i s c',
+  step c (Evict i s) c' -> inactive (c_inst c i) = false ->
+  mem s (i_sessions (c_inst c' i)) = false /\ lookup (i_name (c_inst c i)) (s_subs (c_sess c' s)) = None.
+Proof.
+  intros c i s c' Hs Hin. unfold step in Hs. simpl in Hs. rewrite Hin in Hs.
+  destruct (negb (is_run (i_phase (c_inst c i))) || negb (mem s (i_sessions (c_inst c i)))); [discriminate|].
+  inversion Hs; subst; clear Hs. simpl. unfold on_sess, on_inst, upd. simpl. rewrite !Nat.eqb_refl. simpl.
+  split; [apply mem_remove_nat_same|apply lookup_remove_key_same].
+Qed.
+Print Assumptions c14_evict_detaches_both_sides.
 
 (* ================================================================ 4. a terminated session is detached everywhere *)
 
@@ -199,7 +258,7 @@ Definition c14_no_stuck_statement : Prop :=
 Theorem c14_no_stuck_refuted_lost_leave : ~ c14_no_stuck_statement.
 Proof.
   intros H. destruct lost_leave_refutes as (c & Hrun & Hst & Hq & _).
-  destruct (H _ _ _ c (run_reach _ _ _ _ _ _ (reach_init _ _ _) Hrun) Hst) as ((_ & _ & _ & _ & Hu & _) & _).
+  destruct (H _ _ _ c (run_reach _ _ _ _ _ _ (reach_init _ _ _ _) Hrun) Hst) as ((_ & _ & _ & _ & Hu & _) & _).
   contradiction.
 Qed.
 Print Assumptions c14_no_stuck_refuted_lost_leave.
@@ -209,7 +268,7 @@ Print Assumptions c14_no_stuck_refuted_lost_leave.
 Theorem c14_no_stuck_refuted_nil_done : ~ c14_no_stuck_statement.
 Proof.
   intros H. destruct stale_unload_refutes as (c & Hrun & Hst & _ & Hi & _).
-  destruct (H _ _ _ c (run_reach _ _ _ _ _ _ (reach_init _ _ _) Hrun) Hst) as (_ & H0 & _).
+  destruct (H _ _ _ c (run_reach _ _ _ _ _ _ (reach_init _ _ _ _) Hrun) Hst) as (_ & H0 & _).
   specialize (H0 1). lia.
 Qed.
 Print Assumptions c14_no_stuck_refuted_nil_done.
@@ -225,11 +284,23 @@ Print Assumptions c14_no_stuck_partial.
 
 (* a schedule without any excluded step that ends quiescent with session 1 attached to topic 1 on both sides *)
 Example c14_example_attached : exists c iss,
-  runI [ClientSub 1 1; HubJoin; InitDone 0 true; TopicReg 0 true] (init_config ex_stored ex_owner ex_user) [] = Some (c, iss) /\
+  runI [ClientSub 1 1 false; HubJoin; InitDone 0 true; TopicReg 0 true] (init_config ex_stored ex_owner ex_user ex_chan) [] = Some (c, iss) /\
   lookup 1 (s_subs (c_sess c 1)) = Some 0 /\ mem 1 (i_sessions (c_inst c 0)) = true /\
   ans 1 (c_sess c 1) = 1 /\ c_hjoin c = [] /\ c_treg c = [].
 Proof. eexists. eexists. split; [vm_compute; reflexivity|]. repeat split. Qed.
 
 Example c14_example_lossy_is_decidable :
-  lossy (init_config ex_stored ex_owner ex_user) HubJoin = false.
+  lossy (init_config ex_stored ex_owner ex_user ex_chan) HubJoin = false.
+Proof. reflexivity. Qed.
+
+(* a channel subscription (attached as chnXXX) left by the group name: answered 404 once, detached on both sides *)
+Example c14_example_channel_left_by_group_name : exists c,
+  run chan_leave_by_group_name_trace (init_config ex_stored ex_owner ex_user ex_chan1) = Some c /\
+  s_out (c_sess c 1) = [mkRep (Some 1) COk 1; mkRep (Some 2) CNotFound 1] /\
+  lookup 1 (s_subs (c_sess c 1)) = None /\ i_sessions (c_inst c 0) = [] /\ i_chansub (c_inst c 0) = [].
+Proof. exact chan_leave_by_group_name. Qed.
+
+(* the step excluded by reachI_nd is decidable and not taken by ordinary requests *)
+Example c14_example_noisy_is_decidable :
+  noisy (init_config ex_stored ex_owner ex_user ex_chan) (TopicUnreg 0) = false.
 Proof. reflexivity. Qed.
